@@ -5,6 +5,7 @@ import (
 	"flag"
 	"fmt"
 	"os"
+	"os/exec"
 	"path/filepath"
 	"sort"
 	"strconv"
@@ -366,7 +367,7 @@ func cmdCheck(args []string) int {
 		// thorough: selftest mutants of this property
 		var st *selftestSummary
 		if *tier == "thorough" {
-			st = runSelftest(root, id, claims.Properties[id], known, sub)
+			st = runSelftest(root, id, claims, known, sub)
 			for _, m := range st.Missed {
 				out.violations = append(out.violations, violation{Func: "selftest", Obl: m, Status: "mutant-survived", Why: "a must-fail mutant of the selftest corpus was not detected (the machinery lost strength)"})
 			}
@@ -493,17 +494,96 @@ func mapShort(xs []string) []string {
 
 func round2(f float64) float64 { return float64(int(f*100+0.5)) / 100 }
 
-// tryReplay: property-specific replay harnesses (added per property); returns true when a
-// concrete failing input was confirmed against the real code.
-func tryReplay(root, id string, v violation, path string) bool { return false }
-
-type selftestSummary struct {
-	Tried  int      `json:"mutants_tried"`
-	Caught int      `json:"mutants_caught"`
-	Missed []string `json:"missed"`
-	Detail []string `json:"detail"`
+// replayCfg: /verif/replay/index.json maps a property to its replay harness.
+type replayCfg struct {
+	Dir       string `json:"dir"`       // directory under /verif/replay with replay_test.go, target.txt, battery.json
+	Direction string `json:"direction"` // only REPLAY-CONFIRMED lines with this direction count ("" = any)
 }
 
-func runSelftest(root, id string, pc *PropClaim, known []KnownFinding, dir string) *selftestSummary {
-	return &selftestSummary{}
+// tryReplay runs the property's replay harness (a Go test injected into /repo's current working
+// tree with `go test -overlay`, nothing is written to /repo) on the witness battery and on the
+// solver's model when there is one.  It returns true when a concrete failing input was confirmed
+// against the real code, and records it in the replay file.
+func tryReplay(root, id string, v violation, path string) bool {
+	var idx map[string]replayCfg
+	if err := loadJSON(filepath.Join(root, "replay", "index.json"), &idx); err != nil {
+		return false
+	}
+	cfg, ok := idx[id]
+	if !ok {
+		return false
+	}
+	confirmed, output := runReplayHarness(root, id, cfg, filepath.Join(root, "replay", cfg.Dir, "battery.json"))
+	var m map[string]interface{}
+	if err := loadJSON(path, &m); err != nil {
+		m = map[string]interface{}{}
+	}
+	m["replay_harness"] = filepath.Join(root, "replay", cfg.Dir, "replay_test.go")
+	m["replay_output"] = output
+	if len(confirmed) > 0 {
+		m["replay_confirmed"] = true
+		m["failing_input"] = confirmed
+	}
+	b, _ := json.MarshalIndent(m, "", " ")
+	os.WriteFile(path, append(b, '\n'), 0o644)
+	return len(confirmed) > 0
+}
+
+var replayCache = map[string][2]interface{}{}
+
+func runReplayHarness(root, id string, cfg replayCfg, witness string) ([]string, string) {
+	key := cfg.Dir + "|" + cfg.Direction + "|" + witness
+	if c, ok := replayCache[key]; ok {
+		return c[0].([]string), c[1].(string)
+	}
+	dir := filepath.Join(root, "replay", cfg.Dir)
+	tb, err := os.ReadFile(filepath.Join(dir, "target.txt"))
+	if err != nil {
+		return nil, err.Error()
+	}
+	target := strings.TrimSpace(string(tb))
+	tmp, _ := os.MkdirTemp("", "govc-replay")
+	defer os.RemoveAll(tmp)
+	ov := map[string]map[string]string{"Replace": {filepath.Join(repoDir(), target, "zz_verif_replay_test.go"): filepath.Join(dir, "replay_test.go")}}
+	ob, _ := json.Marshal(ov)
+	ovPath := filepath.Join(tmp, "ov.json")
+	os.WriteFile(ovPath, ob, 0o644)
+	cmd := exec.Command("go", "test", "-overlay", ovPath, "-vet=off", "-timeout", "60s", "-count=1", "-v", "-run", "TestVerifReplay", "./"+target)
+	cmd.Dir = repoDir()
+	cmd.Env = append(os.Environ(), "GOFLAGS=-mod=readonly", "GOPROXY=off", "GOSUMDB=off", "GOTOOLCHAIN=local", "VERIF_WITNESS="+witness, "VERIF_PROPERTY="+id)
+	out, _ := cmd.CombinedOutput()
+	var confirmed []string
+	var keep []string
+	for _, ln := range strings.Split(string(out), "\n") {
+		if strings.HasPrefix(ln, "REPLAY-") {
+			keep = append(keep, ln)
+		}
+		if strings.HasPrefix(ln, "REPLAY-CONFIRMED") {
+			if cfg.Direction == "" || strings.Contains(ln, "direction="+cfg.Direction) {
+				confirmed = append(confirmed, ln)
+			}
+		}
+	}
+	if len(keep) == 0 {
+		keep = append(keep, trimTail(string(out), 2000))
+	}
+	res := strings.Join(keep, "\n")
+	replayCache[key] = [2]interface{}{confirmed, res}
+	return confirmed, res
+}
+
+func trimTail(s string, n int) string {
+	if len(s) > n {
+		return s[len(s)-n:]
+	}
+	return s
+}
+
+type selftestSummary struct {
+	Tried         int      `json:"mutants_tried"`
+	Caught        int      `json:"mutants_caught"`
+	NeutralTried  int      `json:"neutral_edits_tried"`
+	NeutralPassed int      `json:"neutral_edits_passed"`
+	Missed        []string `json:"missed"`
+	Detail        []string `json:"detail"`
 }
